@@ -22,12 +22,17 @@ import (
 	"verifharness/kit/nat"
 	"verifharness/kit/pk"
 	cs "verifharness/synth/ccmsynth"
+	es "verifharness/synth/ethsynth"
+
+	polyeth "github.com/polynetwork/poly/native/service/header_sync/eth"
 )
 
 const (
 	srcVoteA  = 10
 	srcVoteB  = 11
 	srcRipple = 12
+	srcEth    = 13
+	srcBsc    = 14
 	dstEth    = 20
 	dstVote   = 21
 	dstLate   = 22 // registered only in the middle of some histories
@@ -51,6 +56,8 @@ type hist struct {
 	trace    []string
 	router   map[uint64]string
 	asset    map[uint64][]byte // ripple asset binding per destination
+	evm      []*evmSrc
+	evmUsed  map[string]bool
 	bad      bool
 }
 
@@ -69,8 +76,24 @@ type tpl struct {
 	snap  *cs.Snapshot
 	outs  []*pk.Key
 	asset map[uint64][]byte
+	evm   []*evmSrc
 	uses  int
 }
+
+// evmGroup is a family of messages of one proof-authenticated source that share a cross-chain id:
+// the same message committed at two storage slots (two different valid proofs), another body with
+// the same id, and a body with the same id towards a chain that is not registered at first.
+type evmGroup struct {
+	A1, A2, B, U cs.EVMMessage
+}
+
+type evmSrc struct {
+	s      *cs.EVMSource
+	name   string
+	groups []evmGroup
+}
+
+const evmGroups = 10
 
 var pool = map[string]*tpl{}
 
@@ -112,6 +135,27 @@ func newHist(r *kit.Run, rng *rand.Rand, netID uint32, nVals int) *hist {
 			r.Inconclusive("registerAsset: " + rec.Err)
 			return nil
 		}
+		// proof-authenticated sources: an eth chain (ethash seal bypassed by the verif hook, every
+		// other header rule on) and a bsc chain (really sealed Parlia headers)
+		for _, d := range []struct {
+			kind string
+			id   uint64
+		}{{"eth", srcEth}, {"bsc", srcBsc}} {
+			src := &evmSrc{s: w.NewEVMSource(krng, d.kind, d.id), name: d.kind}
+			dests := []uint64{dstEth, dstVote, srcVoteA}
+			for g := 0; g < evmGroups; g++ {
+				a := es.RandTxParam(krng, dests[krng.Intn(len(dests))])
+				b := es.RandTxParam(krng, dests[krng.Intn(len(dests))])
+				u := es.RandTxParam(krng, dstLate)
+				b.CrossChainID, u.CrossChainID = a.CrossChainID, a.CrossChainID
+				src.groups = append(src.groups, evmGroup{A1: src.s.Commit(krng, a), A2: src.s.Commit(krng, a), B: src.s.Commit(krng, b), U: src.s.Commit(krng, u)})
+			}
+			if err := src.s.Seal(krng, 6); err != nil {
+				r.Inconclusive("evm source " + d.kind + ": " + err.Error())
+				return nil
+			}
+			t.evm = append(t.evm, src)
+		}
 		t.snap = w.Snapshot()
 		pool[key] = t
 		r.Count("universes_built", 1)
@@ -120,7 +164,8 @@ func newHist(r *kit.Run, rng *rand.Rand, netID uint32, nVals int) *hist {
 	config.DefConfig.P2PNode.NetworkId = netID
 	t.w.Restore(t.snap)
 	return &hist{r: r, rng: rng, w: t.w, vm: cs.NewVoteModel(), outs: t.outs, done: map[msgKey]bool{}, releases: map[msgKey]int{},
-		router: map[uint64]string{srcVoteA: "vote", srcVoteB: "vote", srcRipple: "ripple"}, asset: t.asset}
+		router: map[uint64]string{srcVoteA: "vote", srcVoteB: "vote", srcRipple: "ripple", srcEth: "eth", srcBsc: "bsc"}, asset: t.asset,
+		evm: t.evm, evmUsed: map[string]bool{}}
 }
 
 // body draws a message from source towards to with the given cross-chain id. For the ripple
@@ -262,6 +307,152 @@ func (h *hist) submit(kind string, source uint64, height uint32, extra []byte, p
 	return accepted
 }
 
+// evmCall makes one proof-authenticated import and judges it: wantAccept (first valid submission
+// of its (source, cross-chain id)) must succeed, create exactly the done marker and release once;
+// anything else must fail with unchanged state.
+func (h *hist) evmCall(kind string, src *evmSrc, p *es.TxParam, wantAccept bool, call func() *natRec) bool {
+	r := h.r
+	source := src.s.Spec.ID
+	key := msgKey{source, string(p.CrossChainID)}
+	rt := src.name
+	o := h.w.Do(call)
+	r.Eval(1)
+	h.logf("%s src=%d(%s) cross=%x to=%d -> ok=%v err=%q touched=%v leaves=%d", kind, source, rt, p.CrossChainID[:6], p.ToChainID, o.Rec.Ok, o.Rec.Err, o.Touched(), len(o.Rec.CrossHashes))
+	h.attribute(o)
+	accepted := false
+	if wantAccept && !h.done[key] {
+		r.Count("deciding_calls_expected_accept", 1)
+		if !o.Rec.Ok {
+			h.violation("router:"+rt+" valid-first-submission-rejected", fmt.Sprintf("%s: %s", kind, o.Rec.Err))
+			return false
+		}
+		ad, ch, rm := o.TouchedUnder(scom.DONE_TX)
+		if len(ad) != 1 || len(ch)+len(rm) != 0 || !h.w.Done(source, p.CrossChainID) {
+			h.violation("router:"+rt+" accepted-without-done-marker", fmt.Sprintf("%s: done keys +%d ~%d -%d, CheckDoneTx says done=%v", kind, len(ad), len(ch), len(rm), h.w.Done(source, p.CrossChainID)))
+		}
+		if n, _, _ := o.TouchedUnder(scom.REQUEST); len(n) != 1 || len(o.Rec.CrossHashes) != 1 {
+			h.violation("router:"+rt+" accepted-without-single-release", fmt.Sprintf("%s: requests +%d leaves %d", kind, len(n), len(o.Rec.CrossHashes)))
+		}
+		h.done[key] = true
+		accepted = true
+		r.Count("accepted", 1)
+		r.Count("accepted:"+rt, 1)
+	} else {
+		r.Count("deciding_calls_expected_reject", 1)
+		if o.Rec.Ok || !o.Unchanged() || len(o.Rec.CrossHashes) != 0 {
+			k := "router:" + rt + " invalid-submission-accepted"
+			if h.done[key] {
+				k = "router:" + rt + " replay-accepted"
+			}
+			h.violation(k, fmt.Sprintf("%s: ok=%v touched=%v leaves=%d", kind, o.Rec.Ok, o.Touched(), len(o.Rec.CrossHashes)))
+		} else {
+			r.Count("rejected", 1)
+			r.Count("rejected:"+rt, 1)
+			r.Count("rejected:"+kind, 1)
+		}
+	}
+	h.checkMarkers(kind)
+	return accepted
+}
+
+// evmGroupFor picks an unused message family of a random proof-authenticated source.
+func (h *hist) evmGroupFor() (*evmSrc, *evmGroup) {
+	src := h.evm[h.rng.Intn(len(h.evm))]
+	for try := 0; try < 2*evmGroups; try++ {
+		g := h.rng.Intn(len(src.groups))
+		k := fmt.Sprintf("%s/%d", src.name, g)
+		if !h.evmUsed[k] {
+			h.evmUsed[k] = true
+			return src, &src.groups[g]
+		}
+	}
+	return nil, nil
+}
+
+// evmReplays: after acceptance, replays with the same proof, at another height, with the other
+// valid proof, and with another body carrying the same cross-chain id.
+func (h *hist) evmReplays(src *evmSrc, g *evmGroup, idx int) {
+	n := len(src.s.Heights) - 1
+	for k := 1 + h.rng.Intn(4); k > 0 && !h.bad; k-- {
+		switch h.rng.Intn(4) {
+		case 0:
+			h.evmCall("replay-same", src, g.A1.P, false, func() *natRec { return src.s.Import(g.A1, idx, nil) })
+		case 1:
+			j := (idx + 1 + h.rng.Intn(n-1)) % n
+			h.evmCall("replay-height", src, g.A1.P, false, func() *natRec { return src.s.Import(g.A1, j, nil) })
+		case 2:
+			h.evmCall("replay-other-proof", src, g.A2.P, false, func() *natRec { return src.s.Import(g.A2, h.rng.Intn(n), nil) })
+		case 3:
+			h.evmCall("replay-body", src, g.B.P, false, func() *natRec { return src.s.Import(g.B, h.rng.Intn(n), nil) })
+		}
+	}
+}
+
+// evmFresh: first valid submission, then replays.
+func (h *hist) evmFresh() bool {
+	src, g := h.evmGroupFor()
+	if src == nil {
+		return false
+	}
+	idx := h.rng.Intn(len(src.s.Heights) - 1)
+	first := g.A1
+	if h.rng.Intn(3) == 0 {
+		first = g.A2
+	}
+	if h.evmCall("fresh", src, first.P, true, func() *natRec { return src.s.Import(first, idx, nil) }) {
+		h.evmReplays(src, g, idx)
+	}
+	return true
+}
+
+// evmFailedFirst: a failing first attempt (no marker may remain), then the valid submission, then replays.
+func (h *hist) evmFailedFirst() bool {
+	src, g := h.evmGroupFor()
+	if src == nil {
+		return false
+	}
+	n := len(src.s.Heights) - 1
+	idx := h.rng.Intn(n)
+	for k := 1 + h.rng.Intn(2); k > 0 && !h.bad; k-- {
+		switch h.rng.Intn(5) {
+		case 0: // the proof is for another committed value (message bytes do not match the proven hash)
+			h.evmCall("first-wrong-message", src, g.A1.P, false, func() *natRec { return src.s.Import(g.A1, idx, g.B.P.Serialize()) })
+		case 1: // damaged proof document
+			pj := src.s.ProofJSON(g.A1)
+			cut := pj[:len(pj)/2+h.rng.Intn(len(pj)/2)]
+			h.evmCall("first-malformed", src, g.A1.P, false, func() *natRec { return src.s.ImportRaw(uint32(src.s.Heights[idx]), cut, g.A1.P.Serialize()) })
+		case 2: // a height the light client has no header for
+			h.evmCall("first-unknown-height", src, g.A1.P, false, func() *natRec {
+				return src.s.ImportRaw(uint32(src.s.Heights[0])-50, src.s.ProofJSON(g.A1), g.A1.P.Serialize())
+			})
+		case 3: // valid proof, destination chain not registered
+			if !h.w.Registered(dstLate) {
+				h.evmCall("first-dest-unregistered", src, g.U.P, false, func() *natRec { return src.s.Import(g.U, idx, nil) })
+			}
+		case 4: // valid proof, destination blacklisted; whitelisted afterwards
+			to := g.A1.P.ToChainID
+			if rec := h.w.Black(to); !rec.Ok {
+				h.r.Inconclusive("black: " + rec.Err)
+				return true
+			}
+			h.logf("blacked %d", to)
+			h.evmCall("first-dest-blacked", src, g.A1.P, false, func() *natRec { return src.s.Import(g.A1, idx, nil) })
+			if rec := h.w.White(to); !rec.Ok {
+				h.r.Inconclusive("white: " + rec.Err)
+				return true
+			}
+			h.logf("whited %d", to)
+		}
+		if h.w.Done(src.s.Spec.ID, g.A1.P.CrossChainID) {
+			h.violation("failed-attempt-left-done-marker", "after a failed first attempt on router "+src.name)
+		}
+	}
+	if !h.bad && h.evmCall("valid-after-failed", src, g.A1.P, true, func() *natRec { return src.s.Import(g.A1, idx, nil) }) {
+		h.evmReplays(src, g, idx)
+	}
+	return true
+}
+
 // doneKeys lists the done-marker keys in committed storage.
 func (h *hist) doneKeys() [][]byte {
 	var out [][]byte
@@ -353,8 +544,22 @@ func runHistory(r *kit.Run, rng *rand.Rand, nVals int, idx int) {
 		if rng.Intn(3) == 0 {
 			h.w.E.Height += uint32(rng.Intn(3))
 		}
-		kind := rng.Intn(10)
+		kind := rng.Intn(13)
 		if len(acc) == 0 && kind >= 1 && kind <= 4 {
+			kind = 0
+		}
+		if kind >= 10 {
+			ok := false
+			if kind == 12 {
+				ok = h.evmFailedFirst()
+				shape += "X"
+			} else {
+				ok = h.evmFresh()
+				shape += "E"
+			}
+			if ok {
+				continue
+			}
 			kind = 0
 		}
 		switch kind {
@@ -547,6 +752,8 @@ func TestC20(t *testing.T) {
 	r := kit.Start(t, "C20", "exploration")
 	defer r.Finish()
 	r.Rule("histories on main-net id: 4-8 submissions each drawn from {fresh valid, same subject again (other proof bytes / voters), same message at another height, other body with the same cross-chain id, failed first attempt (malformed bytes | unregistered destination | blacklisted destination | too few votes + outsiders + forged relayer) followed by a valid one}; a submission is a voting round of all validators in random order with outsiders and repeat voters mixed in; sources: two VOTE-router chains and one ripple chain; N validators 4..10; distinct = (N, sequence of submission kinds, #accepted, height regime)")
+	polyeth.VerifSealBypass = true
+	defer func() { polyeth.VerifSealBypass = false }()
 	nh := r.N(400, 9000)
 	rng := r.Rand("histories")
 	for i := 0; i < nh; i++ {
@@ -560,8 +767,8 @@ func TestC20(t *testing.T) {
 		}
 	}
 	otherNetworks(r)
-	r.Set("routers_covered", []string{"vote (consensus_vote)", "ripple (as source)"})
-	r.Set("routers_uncovered", []string{"eth", "bsc", "heco", "hsc", "msc", "pixiechain", "polygon bor", "bytom", "quorum", "cosmos", "okex", "ont", "neo", "neo3", "neo3legacy", "btc", "zilliqa", "zilliqalegacy", "starcoin", "harmony (BLS stub)"})
+	r.Set("routers_covered", []string{"vote (consensus_vote)", "ripple (as source)", "eth (ethash seal bypassed by the verif hook; header rules and Merkle-Patricia proofs real)", "bsc (really sealed Parlia headers)"})
+	r.Set("routers_uncovered", []string{"heco", "hsc", "msc", "pixiechain", "polygon bor", "bytom", "quorum", "cosmos", "okex", "ont", "neo", "neo3", "neo3legacy", "btc", "zilliqa", "zilliqalegacy", "starcoin", "harmony (BLS stub)"})
 	r.Assume("routers other than vote / ripple-as-source reach the same CheckDoneTx/PutDoneTx pair after their proof verification; their deposits are not synthesised in this check (proof logic is covered by C23/C30/C31), so the verdict holds for the vote-authenticated routers only")
 	r.Assume("for the vote-authenticated routers a 'submission' is a voting round; it is decided at the call that brings the distinct-validator count to ceil(2N/3). Votes before that call may record themselves (voteInfo only); a repeated round on an already released subject may return success but must change nothing")
 	r.Assume("failure atomicity of a single call is provided by the transaction layer (C15); the driver reproduces HandleInvokeTransaction")
@@ -569,6 +776,13 @@ func TestC20(t *testing.T) {
 	r.Require("accepted", nhq)
 	r.Require("accepted:vote", nhq/3)
 	r.Require("accepted:ripple", nhq/8)
+	r.Require("accepted:eth", nhq/8)
+	r.Require("accepted:bsc", nhq/8)
+	r.Require("rejected:eth", nhq/4)
+	r.Require("rejected:bsc", nhq/4)
+	r.Require("rejected:replay-other-proof", nhq/16)
+	r.Require("rejected:first-wrong-message", nhq/40)
+	r.Require("rejected:first-unknown-height", nhq/40)
 	r.Require("rejected", nhq)
 	r.Require("rejected:replay-height", nhq/8)
 	r.Require("rejected:replay-body", nhq/8)
